@@ -513,7 +513,18 @@ def _process_internal_events_without_default_matchers(
     if event.name == InternalEvents.START_FLOW:
         # Start new flow state instance if flow exists
         flow_id = event.arguments["flow_id"]
-        if flow_id in state.flow_configs and flow_id != "main":
+        # A flow that has ended in the meantime can no longer start flows. The finished
+        # instance of an activated flow (activated > 0) is the exception, it restarts itself.
+        source_flow_state = state.flow_states.get(
+            event.arguments.get("source_flow_instance_uid", "")
+        )
+        if (
+            source_flow_state is not None
+            and _is_done_flow(source_flow_state)
+            and source_flow_state.activated == 0
+        ):
+            log.info("Start of flow '%s' ignored, the starting flow has ended", flow_id)
+        elif flow_id in state.flow_configs and flow_id != "main":
             started_instance = None
             if (
                 event.arguments.get("activated", None)
